@@ -437,6 +437,10 @@ def _read_o_file(cfg_path, name, needed_keys, intern, version, im):
                 w2 = specs[4]
                 T = intern[name]["T"]
                 start_read = intern[name]["spec"][quarks][off][w][w2]["start"]
+                # check, if the correlator is in fact
+                # printed completely
+                if (start_read + T + 1 > len(lines)):
+                    raise Exception("EOF before end of correlator data! Maybe " + file + " is corrupted?")
                 deltas = []
                 for line in lines[start_read:start_read + T]:
                     floats = list(map(float, line.split()))
@@ -607,6 +611,8 @@ def _read_append_rep(filename, pattern, b2b, cfg_separator, im, single):
                 data_starts.append(linenumber)
         if len(set([data_starts[i] - data_starts[i - 1] for i in range(1, len(data_starts))])) > 1:
             raise Exception("Irregularities in file structure found, not all runs have the same output length")
+        if len(data_starts) > 1 and len(content) - data_starts[-1] != data_starts[1] - data_starts[0]:
+            raise Exception("Irregularities in file structure found, the last run is incomplete")
         chunk = content[:data_starts[1]]
         for linenumber, line in enumerate(chunk):
             if line.startswith("gauge_name"):
